@@ -1215,7 +1215,7 @@ func TestVerifWatcher(t *testing.T) {
 	out := verifWOpen(t)
 	defer out.close()
 	seed := verifWSeed()
-	n := 1500
+	n := 2000
 	if verifWThorough() {
 		n = 6000
 	}
@@ -1250,8 +1250,9 @@ func TestVerifWatcher(t *testing.T) {
 	}
 	wg.Wait()
 	out.w.Flush()
+	verifWFetchHeightRows(out)
 	// free-running scenarios: the real Watcher.Run against the simulated node
-	nrun := 24
+	nrun := 36
 	if verifWThorough() {
 		nrun = 120
 	}
